@@ -22,7 +22,7 @@ from hsverif.core import Family, Result, repo_root
 PID = "C03"
 LEVEL = "exploration"
 RULE = (
-    "A case is a batch of 6 scenarios taken in turn from a seed-shuffled permutation of the shared catalogue of library-component scenarios, so the 48 batches of the quick tier execute every one of the 286 scenarios (all families: "
+    "A case is a batch of 6 scenarios taken in turn from a seed-shuffled permutation of the shared catalogue of library-component scenarios, so the quick tier (ceil(N/6) batches) executes every one of the N ~ 300 scenarios (catalogue + determinism-specific ones: string-fed sketches, every cache eviction policy under string keys, default-clock TTL cache, a ParallelSimulation fan-in whose worker threads are slowed in real time, load-balancer strategies fed with key-less requests, CRDT stores with a late joiner) (all families: "
     "sources, queues, servers, networks, consensus, storage, caches, sketches fed with str/bytes/tuple items, messaging, "
     "...; default or hostile parameters) with one seed each, executed in 4 fresh interpreters: PYTHONHASHSEED=0 in "
     "catalogue order; =1 in reverse order; =12345 shuffled with every scenario run twice in a row; =random with "
@@ -88,15 +88,16 @@ def run(case: dict) -> Result:
     res = Result()
     items = case["items"]
     n = len(items)
+    # "slow": which partition of a parallel scenario is slowed down in real time (thread timing is wall-clock too)
     plans = [
-        ("0", list(range(n)), None),
-        ("1", list(reversed(range(n))), None),
-        ("12345", [i for i in case["shuffle"] for _ in (0, 1)], None),
-        ("random", list(range(n)), case["time"]),
+        ("0", list(range(n)), None, "A"),
+        ("1", list(reversed(range(n))), None, "B"),
+        ("12345", [i for i in case["shuffle"] for _ in (0, 1)], None, None),
+        ("random", list(range(n)), case["time"], "A"),
     ]
     runs = []
-    for hs, order, perturb in plans:
-        out = _child({"items": items, "order": order, "perturb_time": perturb}, hs)
+    for hs, order, perturb, slow in plans:
+        out = _child({"items": items, "order": order, "perturb_time": perturb, "slow": slow}, hs)
         runs.append((hs, order, perturb, out["results"]))
     per_item: dict[int, list] = {i: [] for i in range(n)}
     for hs, order, perturb, results in runs:
@@ -150,6 +151,10 @@ def _diagnose(item, case) -> tuple[str, str]:
     t2 = _child({**alone, "perturb_time": {"offset": 1e7, "jump": 0.02, "back": 2.0, "seed": 1}}, "0")["results"][0]
     if a0["digest"] != t["digest"] or a0["digest"] != t2["digest"]:
         return "wall-clock", _first_diff(a0, t if a0["digest"] != t["digest"] else t2)
+    sa = _child({**alone, "slow": "A"}, "0")["results"][0]
+    sb = _child({**alone, "slow": "B"}, "0")["results"][0]
+    if sa["digest"] != sb["digest"]:
+        return "thread-timing", _first_diff(sa, sb)
     twice = _child({"items": [item], "order": [0, 0], "perturb_time": None, "detail": True}, "0")["results"]
     if twice[0]["digest"] != twice[1]["digest"]:
         return "preceding-activity-same-scenario", _first_diff(twice[0], twice[1])
@@ -238,4 +243,11 @@ FAMILIES = {
     "batches": Family("batches", gen, run, case_timeout=1200.0),
     "suite": Family("suite", gen_suite, run_suite, case_timeout=3400.0),
 }
-BUDGET = {"quick": {"batches": 48}, "thorough": {"batches": 1500, "suite": 1}}
+def _quick_batches() -> int:
+    try:
+        return -(-len(_names()) // 6)  # one pass over the whole catalogue
+    except Exception:  # noqa: BLE001  (catalogue not importable at manifest-generation time)
+        return 52
+
+
+BUDGET = {"quick": {"batches": _quick_batches()}, "thorough": {"batches": 1500, "suite": 1}}
